@@ -2,7 +2,10 @@ module verifharness
 
 go 1.24.0
 
-require github.com/jech/galene v0.0.0
+require (
+	github.com/jech/galene v0.0.0
+	golang.org/x/crypto v0.48.0
+)
 
 require (
 	github.com/at-wat/ebml-go v0.18.0 // indirect
@@ -27,7 +30,6 @@ require (
 	github.com/pion/turn/v5 v5.0.12 // indirect
 	github.com/pion/webrtc/v4 v4.2.17 // indirect
 	github.com/wlynxg/anet v0.0.5 // indirect
-	golang.org/x/crypto v0.48.0 // indirect
 	golang.org/x/net v0.50.0 // indirect
 	golang.org/x/sys v0.41.0 // indirect
 	golang.org/x/time v0.14.0 // indirect
